@@ -2038,7 +2038,7 @@ class CreateQueryBuilder:
                 column = Column(column)
             elif isinstance(column, tuple):
                 column = Column(column_name=column[0], column_type=column[1])
-            self._columns.append(column)
+            self._columns = self._columns + [column]
 
     @builder
     def period_for(  # type:ignore[return]
@@ -2059,7 +2059,7 @@ class CreateQueryBuilder:
         :return:
             CreateQueryBuilder.
         """
-        self._period_fors.append(PeriodFor(name, start_column, end_column))
+        self._period_fors = self._period_fors + [PeriodFor(name, start_column, end_column)]
 
     @builder
     def unique(self, *columns: str | Column) -> "Self":  # type:ignore[return]
@@ -2074,9 +2074,9 @@ class CreateQueryBuilder:
         :return:
             CreateQueryBuilder.
         """
-        self._uniques.append(
+        self._uniques = self._uniques + [
             [(column if isinstance(column, Column) else Column(column)) for column in columns]
-        )
+        ]
 
     @builder
     def primary_key(self, *columns: str | Column) -> "Self":  # type:ignore[return]
